@@ -52,7 +52,10 @@ F9_SIG = {'site': '_get_formatted_iterable', 'container': 'ctor-not-iterable-com
 
 
 def signature_for(value, monitor):
-    bad = I.incompatible_classes(value)
+    try:
+        bad = I.incompatible_classes(value)
+    except RecursionError:
+        bad = []
     if bad:
         return dict(F9_SIG, **{'class': bad[0]})
     return {'monitor': monitor}
@@ -294,6 +297,57 @@ def check_lazy(env, res, cases):
                                            'container with the same members')
 
 
+def check_almost(env, res, cases):
+    """LEAVES THAT ARE ALMOST CONTAINERS (impl_c09 stream `almost`): the routing table of the Lean classifier
+    (heap.fmtRoute on what isinstance says against the real abc classes) vs where the implementation sends the
+    object, and the leaf monitors (identity at every position, constructor never called, container-like methods
+    never called, state unchanged, no exception) on three entry points."""
+    kinds = I.almost_kinds()
+    tags = {k: I.almost_tags(kinds[k]()) for k in sorted({c['kind'] for c in cases})}
+    names = list(tags)
+    outs = env.driver.ask_many([('heap.fmtRoute', {'tags': tags[k]}) for k in names])
+    branch = {k: (o['branch'] if not isinstance(o, common.Reject) else None) for k, o in zip(names, outs)}
+    for case in cases:
+        b = branch[case['kind']]
+        if b is None:
+            res.count('almost:route-rejected')
+            continue
+        first = None
+        for entry in (I.ENTRIES[:2] if case['place'] == 'in-jsonify-sibling' else I.ENTRIES):
+            obs, fails = I.run_almost(case, b, entry=entry)
+            if obs is None:
+                res.count('almost:skipped:unhashable-at-' + case['place'])
+                break
+            if first is None:
+                first = obs
+                res.case(case, nontrivial=True)
+                res.count('stream:almost')
+                res.count('almost:branch:' + b)
+                res.count('almost:place:' + case['place'])
+            for mon, detail in fails:
+                if b in ('leaf', 'bytesLeaf', 'passthrough'):
+                    sig = {'monitor': mon, 'stream': 'almost', 'route': b}
+                else:
+                    o = kinds[case['kind']]()
+                    sig = signature_for(o, mon)
+                    if 'monitor' in sig:
+                        sig = dict(sig, stream='almost', route=b)
+                res.violation(case, detail if entry == 'context' else f'[RecursiveFormatter called directly: {entry}] {detail}',
+                              signature=sig, impl=obs)
+            if obs != first:
+                res.mismatch(case, first, obs, f'entry points disagree on an almost-container leaf ({entry})')
+        if first is None:
+            continue
+        # model: a leaf-like branch hands back the identical object and cannot raise; the other branches build a new one
+        leafy = b in ('leaf', 'bytesLeaf', 'passthrough')
+        if leafy and first != {'same': True}:
+            res.mismatch(case, {'branch': b, 'same': True}, first, 'routing table says leaf: the implementation did not hand back the identical object')
+        elif not leafy and b in ('mapping', 'iterable') and first == {'same': True} and case['place'] not in ('ctx', 'ctx-ff'):
+            res.mismatch(case, {'branch': b, 'same': False}, first, 'routing table says container (rebuilt as a new object): the implementation handed back the identical object')
+        elif 'err' in first:
+            res.count('almost:container-branch-raised:' + first['err'])
+
+
 def run(env, res):
     res.rule = ('every heap case through three entry points (Context.get_formatted_value vs THREE models: heap-level '
                 'fmtHeap, tree-level Pypyr.fmtVal, faithful tree-level Format.fmtVal; '
@@ -318,8 +372,18 @@ def run(env, res):
                 'stream lazy: LAZILY MATERIALISING containers (custom Sequence / generator-Sequence / Mapping / Set whose '
                 'iteration creates fresh equal-content members, 0-16 members: strings with expressions, fresh tuples / lists / '
                 'dicts of them, leaves) at top level, inside a list, as the target of {k} and {k:rf}: monitor "each member '
-                'is formatted as itself" (the id-keyed memo must not confuse a dead temporary with the next one) + tree model')
+                'is formatted as itself" (the id-keyed memo must not confuse a dead temporary with the next one) + tree model; '
+                'stream almost: leaves that are ALMOST containers - classes defining every subset of __len__ / __iter__ / '
+                '__contains__ / __getitem__ / keys x three constructor kinds (takes an iterable / takes nothing / raises), classes '
+                'registered with Sequence / Set / Mapping / Collection / Iterable / Sized / Container / Reversible, dict views, range, '
+                'memoryview, array, deque, ChainMap, Enum classes and members, generators and iterators, str / bytes / bytearray / int '
+                'subclasses, namedtuple, classes as values, objects whose __class__ lies - each at 14 positions (top, list, tuple, dict '
+                'value, nested thrice, shared, context value via {k} {k:rf} {k:ff}, member of a context list, set / frozenset member, '
+                'dict key, next to a !jsonify): the Lean routing table (FmtRoute.route on what isinstance says against the real abc '
+                'classes) vs where the implementation sent it; leaf monitors: identical object at every position, constructor never '
+                'called, container-like methods never called, state unchanged, no exception')
     check_f9(env, res)
+    check_almost(env, res, I.almost_directed_cases())
     check_lazy(env, res, I.lazy_directed_cases())
     check_lazy(env, res, [I.random_lazy_case(env.rng) for _ in range(env.n(400, 12000))])
     cases = I.directed_cases()
@@ -354,5 +418,132 @@ def replay(env, res, case):
         check_py(env, res, [case])
     elif str(case.get('stream', '')).startswith('lazy'):
         check_lazy(env, res, [case])
+    elif case.get('stream') == 'almost':
+        check_almost(env, res, [case])
     else:
         check_cases(env, res, [case])
+
+
+# ---------------------------------------------------------------------------------------------
+# static tie: the isinstance ladder of RecursiveFormatter._get_formatted_iterable, read by ast
+# ---------------------------------------------------------------------------------------------
+
+def ladder_facts(repo=None):
+    """Read pypyr/formatting.py of the tree under test (ast only): the if / elif chain of `_get_formatted_iterable`
+    that routes an object - per rung the classes its `isinstance(obj, …)` tests name and what its body does - the
+    final else, and where every non-builtin class name of the tests is imported from."""
+    import ast
+    from pathlib import Path
+    repo = Path(repo or common.REPO)
+    tree = ast.parse((repo / 'pypyr' / 'formatting.py').read_text(encoding='utf-8'))
+    fn = None
+    for node in ast.walk(tree):
+        if isinstance(node, ast.ClassDef) and node.name == 'RecursiveFormatter':
+            for x in node.body:
+                if isinstance(x, ast.FunctionDef) and x.name == '_get_formatted_iterable':
+                    fn = x
+    if fn is None:
+        raise ValueError('RecursiveFormatter._get_formatted_iterable not found')
+    chain = [s for s in fn.body if isinstance(s, ast.If) and 'isinstance' in ast.unparse(s.test)]
+    if len(chain) != 1:
+        raise ValueError(f'expected ONE top-level isinstance ladder in _get_formatted_iterable, found {len(chain)}')
+
+    def classes_of(test):
+        """names the test's isinstance calls test `obj` against; anything else in the test is kept verbatim"""
+        def one(call):
+            if not (isinstance(call, ast.Call) and isinstance(call.func, ast.Name) and call.func.id == 'isinstance'
+                    and len(call.args) == 2 and not call.keywords and ast.unparse(call.args[0]) == 'obj'):
+                return None
+            a = call.args[1]
+            return [ast.unparse(e) for e in a.elts] if isinstance(a, ast.Tuple) else [ast.unparse(a)]
+        got = one(test)
+        if got is not None:
+            return got
+        if (isinstance(test, ast.BoolOp) and isinstance(test.op, ast.And) and len(test.values) == 2):
+            got = one(test.values[1])
+            # `self.x and isinstance(obj, self.x)`: configured and matching
+            if got is not None and len(got) == 1 and ast.unparse(test.values[0]) == got[0]:
+                return got
+        return ['<' + ast.unparse(test) + '>']
+
+    def is_rec(call, arg):
+        return (isinstance(call, ast.Call) and ast.unparse(call.func) == 'self._get_formatted_iterable'
+                and call.args and ast.unparse(call.args[0]) == arg)
+
+    def body_of(stmts):
+        if len(stmts) == 1:
+            s = stmts[0]
+            src = ast.unparse(s)
+            if src in ('new = obj', 'new = obj.get_value(kwargs)', 'return obj'):
+                return src
+            if (isinstance(s, ast.Assign) and ast.unparse(s.targets[0]) == 'new' and isinstance(s.value, ast.Call)):
+                c = s.value
+                if ast.unparse(c.func) == 'self._format_keep_type' and c.args and ast.unparse(c.args[0]) == 'obj':
+                    return 'new = self._format_keep_type(obj, ...)'
+                if (ast.unparse(c.func) == 'obj.__class__' and len(c.args) == 1 and not c.keywords
+                        and isinstance(c.args[0], ast.GeneratorExp) and len(c.args[0].generators) == 1):
+                    g = c.args[0]
+                    comp = g.generators[0]
+                    head = f'for {ast.unparse(comp.target)} in {ast.unparse(comp.iter)}'
+                    if comp.ifs or comp.is_async:
+                        head += ' <filtered>'
+                    if (isinstance(g.elt, ast.Tuple) and len(g.elt.elts) == 2 and is_rec(g.elt.elts[0], 'k')
+                            and is_rec(g.elt.elts[1], 'v')):
+                        return f'new = obj.__class__((rec(k), rec(v)) {head})'
+                    if is_rec(g.elt, 'v'):
+                        return f'new = obj.__class__(rec(v) {head})'
+        return '<' + '; '.join(ast.unparse(s).replace('\n', ' ')[:120] for s in stmts) + '>'
+
+    ladder, node = [], chain[0]
+    while True:
+        ladder.append((classes_of(node.test), body_of(node.body)))
+        if len(node.orelse) == 1 and isinstance(node.orelse[0], ast.If):
+            node = node.orelse[0]
+        else:
+            els = body_of(node.orelse) if node.orelse else '<falls through>'
+            break
+    imported = {}
+    for s in tree.body:
+        if isinstance(s, ast.ImportFrom):
+            for a in s.names:
+                imported[a.asname or a.name] = f'{s.module}.{a.name}'
+        elif isinstance(s, ast.Import):
+            for a in s.names:
+                imported[a.asname or a.name] = a.name
+    import builtins
+    origins = []
+    for names, _ in ladder:
+        for n in names:
+            base = n.split('.')[0]
+            if base != 'self' and not n.startswith('<') and not hasattr(builtins, base):
+                origins.append((n, imported.get(base, '<not imported at module level>')))
+    return {'ladder': ladder, 'else': els, 'origins': sorted(set(origins))}
+
+
+def extract(env):
+    """lean/Generated/FmtLadder.lean: the routing ladder of the tree under test; Props/C09.lean `ladder_is_assumed`
+    proves by `decide` that it is the ladder the model's classifier `FmtRoute.route` assumes."""
+    f = ladder_facts()
+
+    def q(s):
+        return '"' + s.replace('\\', '\\\\').replace('"', '\\"') + '"'
+
+    def lst(xs):
+        return '[' + ', '.join(q(x) for x in xs) + ']'
+    rungs = ',\n   '.join(f'({lst(names)}, {q(body)})' for names, body in f['ladder'])
+    text = ('/- GENERATED by harness/props/c09.py `extract` from pypyr/formatting.py of the tree under test (ast only). '
+            'Do not edit. -/\n'
+            'namespace Pypyr.Generated.FmtLadder\n\n'
+            '/-- the if / elif chain of `RecursiveFormatter._get_formatted_iterable`, in source order: per rung the classes '
+            '`isinstance(obj, …)` tests against (a test of another shape is kept verbatim in <…>) and what the body does '
+            '(`rec` = the recursive call; a body of another shape is kept verbatim in <…>) -/\n'
+            f'def ladder : List (List String × String) :=\n  [{rungs}]\n\n'
+            '/-- the final `else` -/\n'
+            f'def elseBody : String := {q(f["else"])}\n\n'
+            '/-- where each non-builtin class name of the tests comes from (module-level imports) -/\n'
+            'def origins : List (String × String) := ['
+            + ', '.join(f'({q(a)}, {q(b)})' for a, b in f['origins']) + ']\n\n'
+            'end Pypyr.Generated.FmtLadder\n')
+    out = common.LEAN / 'Generated' / 'FmtLadder.lean'
+    if not out.exists() or out.read_text() != text:
+        out.write_text(text)
